@@ -171,6 +171,22 @@ CH2Problems(raw1, raw2, hrr) ==
 \* ------------------------------------------------------------ what a compliant server can select (C10)
 \* The in-tree Go server, configured with one version, one suite, one group, one certificate kind.
 ImplGroups == {29, 23, 24, 25, 4588}
+\* Hybrid groups: how the two halves are laid out in the client share, the server share and the shared secret.
+\*   X25519MLKEM768 (4588), draft-kwiatkowski-tls-ecdhe-mlkem 3.1: ML-KEM part first everywhere, ML-KEM as in FIPS 203
+\*   X25519Kyber768Draft00 (25497), draft-tls-westerbaan-xyber768d00 3: X25519 part first everywhere, Kyber768 round 3
+\*   (= ML-KEM-768 with the final hash K = SHAKE-256(K' || SHA3-256(c)) that FIPS 203 dropped)
+HybridLayout(g) == IF g = 4588 THEN [share |-> "pq-first", secret |-> "pq-first", kem |-> "mlkem768"]
+                   ELSE [share |-> "classical-first", secret |-> "classical-first", kem |-> "kyber768r3"]
+\* The in-tree server has no X25519Kyber768Draft00. A scenario with kx_secret # "" is served by the test server's
+\* key-exchange hook, which follows HybridLayout as handed over in the scenario (the layout comes from here, not from
+\* the client code under test).
+SpecServerGroups == {25497}
+KxOn(sc) == "kx_secret" \in DOMAIN sc /\ sc.kx_secret # ""
+\* A server that composes the secret differently (other order, other KEM variant) derives other handshake keys: the
+\* client cannot open its flight and must abort (bad_record_mac), it must never complete.
+CheckKx(sc, g) == IF KxOn(sc) /\ g \in {4588, 25497}
+                     /\ (sc.kx_share # HybridLayout(g).share \/ sc.kx_secret # HybridLayout(g).secret \/ sc.kx_kem # HybridLayout(g).kem)
+                  THEN "hybrid-layout-mismatch" ELSE ""
 \* can a server holding a certificate of this key kind sign for this client (RFC 8446 4.2.3, RFC 5246 7.4.1.4.1)?
 \* test certificates: ecdsa = P-256, rsa = 2048 bit, ed25519
 CertSigOK(o, cert, ver) ==
@@ -183,7 +199,8 @@ ServerCanSelect(o, sc) ==
   /\ CertSigOK(o, sc.cert, sc.ver)
   /\ sc.ver \in o.versions
   /\ sc.suite \in o.suites /\ SuiteFitsVersion(sc.suite, sc.ver)
-  /\ (sc.ver = 772 => sc.group \in o.groups \cap ImplGroups)
+  /\ (sc.ver = 772 => sc.group \in o.groups \cap (ImplGroups \cup (IF KxOn(sc) THEN SpecServerGroups ELSE {})))
+  /\ (KxOn(sc) => sc.group \in o.shares)   \* the hook does not send a HelloRetryRequest for a hybrid group
   /\ (sc.ver < 772 /\ KnownSuite(sc.suite) /\ SuiteRec(sc.suite).ECDHE => (sc.group \in o.groups \cap {29,23,24,25}))
   /\ (sc.ver < 772 /\ KnownSuite(sc.suite) => (SuiteRec(sc.suite).ECSign <=> sc.cert \in {"ecdsa", "ed25519"}))
 
